@@ -190,6 +190,8 @@ def _run(case):
                     # ---- metamorphic (one tolerance pair)
                     atol, rtol = 1e-6, 1e-1
                     got = float(fn(prev, prop, dt, atol, rtol))
+                    if not np.isfinite(got):
+                        continue  # residual exactly zero in floating point (error_power = inf): nothing to compare
                     # (a) covariance of `previous` replaced: unchanged
                     for fac in (0.0, 3.0):
                         prev2 = _with_cholesky_scaled(prev, fac)
